@@ -14,6 +14,7 @@ import typing
 
 from mon.core.merge import merge, need
 from mon.core.util import Counter, h64, rng, short
+from mon.models import sergen as G
 
 ID = "C15"
 LEVEL = "exploration"
@@ -71,6 +72,7 @@ class Shapes(object):
         self.Enum = type("JE" + uid, (SerializableEnum,), {nm: (i * 3 if kind == "int" else ("v%d" % i if i else "")) for i, nm in enumerate(names)})
         self.enum_members = [getattr(self.Enum, nm) for nm in names]
         self.Leaf = type("JL" + uid, (Serializable,), {"__annotations__": {"n": int, "s": str}, "n": 0, "s": ""})
+        self.Enum_ = self.Enum
         self.Mid = type("JM" + uid, (Serializable,), {"__annotations__": {"leaf": self.Leaf, "e": self.Enum, "f": float, "flag": bool},
                                                      "leaf": None, "e": self.enum_members[0], "f": 0.0, "flag": False})
         basic = [int, float, str, bool]
@@ -90,7 +92,8 @@ class Shapes(object):
             elif shape == "obj":
                 T = r.choice([self.Leaf, self.Mid])
                 ann[name] = T
-                defaults[name] = None
+                # the default of a nested object is None or an instance written in the class body (shared by all instances)
+                defaults[name] = None if r.random() < 0.5 else self.of(T)
                 self.fields.append((name, ("obj", T)))
             elif shape == "enum":
                 ann[name] = self.Enum
@@ -119,6 +122,10 @@ class Shapes(object):
         ns = dict(defaults)
         ns["__annotations__"] = ann
         self.Top = type("JT" + uid, (Serializable,), ns)
+        self.class_defaults = {k: (v, jcanon(v)) for k, v in defaults.items()}
+        # a subclass that declares fields of its own (the library serializes the fields a class declares itself)
+        self.Sub = type("JU" + uid, (self.Top,), {"__annotations__": {"extra_n": int, "extra_s": str, "extra_l": typing.List[int]},
+                                                  "extra_n": 0, "extra_s": "", "extra_l": None})
 
     # ----- values of an annotated type
     def basic(self, T):
@@ -182,6 +189,9 @@ class Shapes(object):
                 return name + ".leaf.s"
         return None
 
+    def make_sub(self):
+        return self.Sub(extra_n=self.basic(int), extra_s=self.basic(str), extra_l=[self.basic(int) for _ in range(self.r.randint(0, 3))])
+
     def make(self):
         r = self.r
         o = self.Top()
@@ -235,7 +245,23 @@ def run_shard(cfg):
         c.inc("class_shapes")
         for name, (shape, T) in sh.fields:
             c.inc("field_shape_" + shape)
+        kept = []                    # earlier decoded results the application still holds: (object, canonical form at decode time)
         for i in range(cfg["objects"]):
+            if i % 25 == 24:
+                # the subclass, after its base class has been through JSON many times
+                xs = sh.make_sub()
+                want_s = jcanon(xs)
+                try:
+                    ys = sh.Sub.fromJson(xs.toJson())
+                    zs = sh.Sub.loads(xs.dumps())
+                    c.inc("subclass_objects")
+                    if jcanon(ys) != want_s or jcanon(zs) != want_s or type(ys) is not sh.Sub:
+                        viol("subclass-roundtrip-differs", "a subclass of a Serializable class (own fields %r) does not round-trip its own fields: toJson gives %s" % (
+                            sh.Sub._fields, short(xs.toJson(), 80)), {"object": short(xs, 100)})
+                    else:
+                        c.inc("subclass_roundtrips")
+                except Exception as e:
+                    viol("subclass-roundtrip-raised", "round trip of a subclass instance raised %r" % (e,), {"object": short(xs, 100)})
             x = sh.make()
             c.inc("objects")
             want = jcanon(x)
@@ -260,6 +286,18 @@ def run_shard(cfg):
                     viol("fromJson-toJson-differs:%s" % "+".join(kinds), "fromJson(toJson(x)) differs in %r" % (d,), {"object": short(x, 120), "diff": d})
                 else:
                     c.inc("roundtrip_fromJson_toJson")
+                    # results stay what they were: the application keeps some, changes others in place
+                    if i % 3 == 0:
+                        kept.append((y, want))
+                        if len(kept) > 6:
+                            old, want_old = kept.pop(r.randrange(len(kept)))
+                            c.inc("earlier_results_rechecked")
+                            if jcanon(old) != want_old:
+                                viol("earlier-result-changed-by-later-decode", "an object decoded earlier changed while later documents were decoded: %r" % (
+                                    [(f, short(getattr(old, f), 20)) for f in old._fields][:4],), {"object": short(old, 120)})
+                    elif i % 3 == 1:
+                        G.poison(y)
+                        c.inc("decoded_values_mutated_in_place")
             except Exception as e:
                 viol("fromJson-raised", "fromJson(toJson(x)) raised %r for %s" % (e, short(x, 40)), {"object": short(x, 100)})
             try:
@@ -290,6 +328,14 @@ def run_shard(cfg):
                         viol("loads-dumps-raised", "after an in-place change loads(dumps(x)) raised %r" % (e,), {"object": short(x, 100)})
             if len(samples) < 2 and i == 3:
                 samples.append({"fields": [(n, s, str(T)[:60]) for n, (s, T) in sh.fields], "json": text[:300]})
+        for old, want_old in kept:
+            c.inc("earlier_results_rechecked")
+            if jcanon(old) != want_old:
+                viol("earlier-result-changed-by-later-decode", "an object decoded earlier changed while later documents were decoded", {"object": short(old, 120)})
+        for fname, (dv, dcanon) in sh.class_defaults.items():
+            c.inc("class_defaults_rechecked")
+            if jcanon(getattr(sh.Top, fname)) != dcanon or getattr(sh.Top, fname) is not dv:
+                viol("class-default-changed-by-decode", "the class-level default of field %s was changed by decoding documents" % fname, {"field": fname})
     return {"evaluations": c.get("objects", 0), "distinct": sorted(distinct), "counters": dict(c), "violations": violations, "samples": samples}
 
 
@@ -298,7 +344,8 @@ def finish(tier, seed, results):
     inconclusive = []
     need(m["counters"], ["objects", "json_dumps_ok", "roundtrip_fromJson_toJson", "roundtrip_loads_dumps", "field_shape_basic", "field_shape_obj",
                          "field_shape_enum", "field_shape_list", "field_shape_set", "field_shape_tuple", "field_shape_dict",
-                         "in_place_mutations", "roundtrip_after_in_place_change"], inconclusive)
+                         "in_place_mutations", "roundtrip_after_in_place_change", "subclass_roundtrips", "earlier_results_rechecked",
+                         "class_defaults_rechecked", "decoded_values_mutated_in_place"], inconclusive)
     cov = {
         "evaluations": m["evaluations"],
         "distinct_nontrivial": m["distinct_nontrivial"],
